@@ -313,6 +313,26 @@ def run_enum(r, tier, tree, which):
         r.run_jobs(jobs, timeout=900 if tier == "quick" else 7200)
 
 
+def run_cfgorder(r, prop, tier, seed, verdict, tree):
+    """the configuration aliases chained in all 120 orders must describe the same machine"""
+    for variant in tree.header_variants():
+        for feats, tag in (((P,), "plans"), ((), "noplans"), ((P, S, H, V), "all")):
+            b = C.build(tree, "cfgorder.cpp", ["-O0"] + ["-D" + f for f in feats], variant=variant, name="cfgorder-" + tag)
+            if not b.ok:
+                first_err = next((l for l in b.log.splitlines() if "error" in l), b.log[-400:])
+                verdict.violation("alias-chain-does-not-compile|%s" % tag, "a configuration alias chain is rejected by the compiler (%s): %s" % (tag, first_err[:500]))
+                continue
+            res = C.run_monitor([b.path, "--prop", prop, "--tier", tier, "--seed", str(seed)], timeout=300)
+            if res.timed_out:
+                verdict.harness_error("cfgorder timed out (inconclusive)")
+                continue
+            if res.rc != 0:
+                verdict.violation("monitor-process-died|cfgorder|rc=%s" % res.rc, "cfgorder (%s) ended rc=%s: %s" % (tag, res.rc, res.stderr_tail[-600:]))
+            for v in res.viols:
+                verdict.violation(v["key"], v.get("msg", ""), prop=v.get("prop"))
+            r.stats["alias_orders_checked"] = r.stats.get("alias_orders_checked", 0) + int(res.stats.get("orders_checked", 0))
+
+
 def prop_generic(prop, tier, seed, verdict, tree):
     r = run_random(prop, tier, seed, verdict, tree)
     extra = {}
@@ -325,6 +345,9 @@ def prop_generic(prop, tier, seed, verdict, tree):
             "and at activation, for the configurations %s; enumerated cases: %d (space exhausted: %s)"
             % (", ".join(("enumL1", "enumL2") if tier == "quick" else ("enumL1", "enumL2", "enumL3", "enumN2L4")),
                r.stats.get("cases", 0) - before, bool(r.stats.get("enum_space_exhausted"))))
+    if prop in ("C01", "C04", "C06", "C07", "C10"):
+        run_cfgorder(r, prop, tier, seed, verdict, tree)
+        extra["alias_orders"] = "all 120 orders of chaining ContextT/SubstitutionLimitN/PayloadT/TaskCapacityN/ManualActivation (harness/cfgorder.cpp)"
     if prop == "C10" and r.first_last is False:
         verdict.violation("plan-first-last-not-defined",
                           "a program calling Plan::first()/last() on the mutable plan handle does not link: "
